@@ -101,6 +101,8 @@ UNIONS: Dict[str, Sp] = {
     "u(u(int,str),none)": union(union(INT, STR), NONE),
     "ann(u(int,str))": ann(union(INT, STR), min=0, min_len=1),
     "opt(ann(u(int,str)))": opt(ann(union(INT, STR), max=5, max_len=1)),
+    "list_u(any)": ann(lst(ANY), unique=True),
+    "list_u(u(int,bool))": ann(lst(union(INT, BOOL)), unique=True),
 }
 
 # ------------------------------------------------------------------------------ objects
